@@ -249,7 +249,13 @@ func GenRecipe(r *RNG, opt GenOpts) Recipe {
 	}
 	if feature(opt.WantCallback) {
 		for i, n := 0, r.Range(1, 3); i < n; i++ {
-			add(Op{K: "AllowURLSchemeWithCustomPolicy", Names: []string{r.Pick(schemes)}, Fn: r.Pick(urlPolicyNames)})
+			add(Op{K: "AllowURLSchemeWithCustomPolicy", Names: []string{r.Pick([]string{"http", "https", "http", "app", "ftp", "mailto"})}, Fn: r.Pick(urlPolicyNames)})
+		}
+		// a callback nobody reaches explores nothing: make sure URL attributes survive to it
+		add(Op{K: "AllowAttrs", Names: []string{"href"}, Scope: "els", Els: []string{"a", "area"}})
+		add(Op{K: "AllowAttrs", Names: []string{"src"}, Scope: "els", Els: []string{"img", "video"}})
+		if feature(0.5) {
+			add(Op{K: "AllowStyles", Names: subset(r, styleProps, 1, 2), Fn: r.Pick(styleFns), Scope: "glob"})
 		}
 	}
 	if feature(0.1) {
